@@ -11,7 +11,7 @@ from math import pi
 
 import numpy as np
 
-from vlib import paths
+from vlib import paths, argrep
 paths.setup()
 from vlib.runner import result, HELD, VIOL, SKIP, INCO  # noqa: E402
 from vlib import refmath as rm  # noqa: E402
@@ -136,8 +136,15 @@ def _step_case(case, spl, adv):
         cc = shift / dt
         shift_eff = cc * dt
         f0 = rs.standard_normal(nv) * rng.choice([1.0, 1e-3, 50.0])
-        got = f0.copy()
-        op.step(got, dt, cc, r)
+        rep = argrep.kinds(1)[(len(cls) + case.get("seed", 0)) % len(argrep.kinds(1))]
+        held = argrep.view_of(f0, rep)      # the caller's line: fresh, or a stride / column / window of a larger block
+        cc_in = (cc, np.float64(cc), np.array(cc), np.array([cc, 0.0])[0:1].reshape(()))[(case.get("seed", 0) // 4 + len(cls)) % 4]   # the speed as a Python float, a numpy scalar, a 0-d array, a 0-d view
+        cc_before = float(cc_in)
+        op.step(held, dt, cc_in, r)
+        got = np.array(held)
+        if float(cc_in) != cc_before:
+            return result(VIOL, cls=sorted(cls), events=ev, key="C11:step/argument-modified", what="VParallelAdvection.step changed the advection speed it was handed (a %s): %r -> %r" % (type(cc_in).__name__, cc_before, float(cc_in)), witness={"case": case})
+        ev["arguments_not_c_contiguous"] = ev.get("arguments_not_c_contiguous", 0) + int(rep not in ("c", "window"))
         ref, judged, nout, alt = vref.step(f0, shift_eff, r, c, edge, exact=exact and shift_eff == shift)
         fmax = float(np.abs(f0).max())
         tol = C * rm.EPS * vref.ref.kappa * fmax * (1 + (max(abs(vMax), abs(vMin)) + abs(shift_eff)) * 2 * deg * deg / vref.dvmin) + 1e-300
